@@ -74,16 +74,16 @@ type Violation struct {
 // Rec accumulates what a worker (or the driver phase) observed.
 type Rec struct {
 	mu         sync.Mutex
-	Evals      int64            `json:"evaluations"`
-	Cover      map[uint64]int   `json:"-"`
-	CoverList  []uint64         `json:"cover"`
-	Samples    []any            `json:"samples"`
-	Violations []Violation      `json:"violations"`
-	Counters   map[string]int64 `json:"counters"`
-	Maxes      map[string]int64 `json:"maxes"`
+	Evals      int64                      `json:"evaluations"`
+	Cover      map[uint64]int             `json:"-"`
+	CoverList  []uint64                   `json:"cover"`
+	Samples    []any                      `json:"samples"`
+	Violations []Violation                `json:"violations"`
+	Counters   map[string]int64           `json:"counters"`
+	Maxes      map[string]int64           `json:"maxes"`
 	Sets       map[string]map[string]bool `json:"-"`
 	SetLists   map[string][]string        `json:"sets"`
-	Inconcl    []string         `json:"inconclusive"`
+	Inconcl    []string                   `json:"inconclusive"`
 	maxSamples int
 }
 
@@ -132,10 +132,18 @@ func (r *Rec) Sample(s any) {
 	r.mu.Unlock()
 }
 
-func (r *Rec) WantSample() bool { r.mu.Lock(); defer r.mu.Unlock(); return len(r.Samples) < r.maxSamples }
+func (r *Rec) WantSample() bool {
+	r.mu.Lock()
+	defer r.mu.Unlock()
+	return len(r.Samples) < r.maxSamples
+}
 
 // Inconclusive records a reason this run cannot be counted as "held".
-func (r *Rec) Inconclusive(reason string) { r.mu.Lock(); r.Inconcl = append(r.Inconcl, reason); r.mu.Unlock() }
+func (r *Rec) Inconclusive(reason string) {
+	r.mu.Lock()
+	r.Inconcl = append(r.Inconcl, reason)
+	r.mu.Unlock()
+}
 
 func (r *Rec) violate(v Violation) {
 	r.mu.Lock()
@@ -264,6 +272,9 @@ func runWorker(p *Prop, tier string, seed int64, spec, out string) {
 		p.Init(w)
 	}
 	total := p.Cases(tier)
+	if n := envInt("VERIF_CASES", 0); n > 0 {
+		total = int(n)
+	}
 	for idx := shard; idx < total; idx += n {
 		w.cur = idx
 		if prog != nil {
@@ -372,6 +383,9 @@ func runDriver(p *Prop, tier string, seed int64) int {
 	total := 0
 	if p.Cases != nil {
 		total = p.Cases(tier)
+	}
+	if n := envInt("VERIF_CASES", 0); n > 0 {
+		total = int(n) // development aid: truncate the case list
 	}
 	nw := runtime.NumCPU()
 	if p.MaxWorkers > 0 && nw > p.MaxWorkers {
